@@ -38,6 +38,7 @@ def run(ctx):
     ctx.rule('C09.g-reused-space-like-fresh', 'after a rate switch the dedicated codec runs on a used working space: every truncated transform is preceded by zeroing of its tail, as on a fresh codec (clause shared with C05.c)')
     from . import c05 as c05_
     ctx.guard('C09.analysable', ctx.shared, {'C05.c-truncated-ifft-zeroed': 'C09.g-reused-space-like-fresh'}, c05_.ifft_rule, ctx, ctx.facts(cfgs[0]), cfgs[0])
+    ctx.guard('C09.analysable', ctx.shared, {'C05.k-insert-always-stores': 'C09.g-reused-space-like-fresh'}, c05_.insert_always_stores, ctx, ctx.facts(cfgs[0]), cfgs[0])
     ctx.rule('C09.i-one-shot-runs-the-streaming-sequence', 'the one-shot functions return what the wrapper codec returns for the same shards: their result comes from that codec\'s encode / decode on every path (clause shared with C10.a)')
     ctx.rule('C09.j-no-history-lengths', 'a codec reached through reset (rate switch or not) reads no length of a grow-only container: it behaves like the dedicated codec created fresh (clause shared with C05.h)')
     from . import c10 as c10_, c05 as c05__
